@@ -10,10 +10,14 @@ Engine E1 (product-space enumeration).  Alphabet
   isotropic to 3 degrees wide at 24 mean directions;
 * N directions in {8, 9, 36, 180} (9: an odd grid on which 90 and 180 degrees are not nodes), grids starting at 0 (what
   `as_frequency_direction_spectrum` builds) and, through the function interface, uniform grids
-  with three other origins;
+  with three other origins and uniform grids whose 360->0 wrap lies in the interior of the array
+  (rolled by N/2, by +1, by -1, and (grid+180)%360), N in {8, 9, 36};
 * all four estimator variants;
 * array shapes (nf,), (nt,nf), (nt,nx,nf), single elements, and spectrum objects in the layouts
-  () / (time,) / (time,latitude) / flattened.
+  () / (time,) / (time,latitude) / flattened;
+* memory layout of the (nt,nx,nf) batch: C-contiguous, Fortran-contiguous (np.asfortranarray and a
+  .T view), non-contiguous strided views (swapaxes view, every-second-element view); spectrum
+  objects whose variables are stored column-major.
 
 Quadruples are stacked along the frequency axis (and at most 9 rows along the leading axis),
 so one library call evaluates thousands of members; every member is still judged on its own.
@@ -38,7 +42,9 @@ RULE = (
     "full Cartesian product: moment lattice {k/n}^4 with a1^2+b1^2<1 (n=4 quick, n=10 thorough) x N in {8,9,36,180} "
     "x variant {mem, mem2/newton, mem2/scipy, mem2/approximate}; plus a von-Mises family "
     "(10 widths x 24 mean directions x 7 modalities) x N x variant; plus the coarse lattice x 3 further grid origins x "
-    "N in {8,36} x variant; plus the coarse lattice through 4 array shapes / single elements and through spectrum "
+    "N in {8,36} x variant; plus the coarse lattice x 4 wrap-in-the-interior grid orders (rolled by N/2, +1, -1, "
+    "(grid+180)%360) x N in {8,9,36} x variant; plus the coarse lattice through 4 array shapes x memory layouts "
+    "{C, Fortran, strided views} / single elements and through spectrum "
     "objects in 4 layouts (batch vs. singleton, round trip, carried coordinates). A member (variant, N, grid, "
     "quadruple) is non-trivial when the quadruple is not (0,0,0,0) (an anisotropic distribution has to be built); "
     "distinct = distinct (variant, N, grid origin, quadruple); shape / layout re-runs of the same members are "
@@ -46,7 +52,9 @@ RULE = (
 )
 ASSUMPTIONS = [
     "lattice, not continuum: nothing is claimed between lattice points",
-    "direction grids are uniform and ascending (what as_frequency_direction_spectrum builds, plus shifted origins)",
+    "direction grids are uniform and counter-clockwise: ascending (what as_frequency_direction_spectrum builds), with "
+    "shifted origins, or cyclically rolled so that the 360->0 wrap lies inside the array; descending (clockwise "
+    "ordered) grids are not exercised - on them all mem2 variants return the negated density (reported separately)",
     "moment arrays have a frequency axis (0-d inputs are outside the documented interface and are not exercised)",
     "numba prange is compiled with parallel=False (library setting _PARALLEL=False); thread schedules are not explored",
 ]
@@ -55,7 +63,8 @@ REQUIRED_CATEGORIES = [
     "variant_mem", "variant_mem2/newton", "variant_mem2/scipy", "variant_mem2/approximate",
     "N_8", "N_9", "N_36", "N_180", "newton_converged", "newton_not_converged",
     "vonmises_narrow_le_5deg", "vonmises_isotropic", "vonmises_bimodal",
-    "grid_origin_shifted", "shape_(nf,)", "shape_(nt,nf)", "shape_(nt,nx,nf)", "shape_single_element",
+    "grid_origin_shifted", "grid_order_rolled", "memory_layout_C", "memory_layout_fortran", "memory_layout_strided",
+    "object_fortran_values", "shape_(nf,)", "shape_(nt,nf)", "shape_(nt,nx,nf)", "shape_single_element",
     "layout_scalar", "layout_time", "layout_time_lat", "layout_flat",
     "singleton_compared", "roundtrip_checked", "progress_bar_path(points>=10)",
 ]
@@ -135,17 +144,36 @@ def classify(q):
     return out
 
 
-def grid(N, origin="0"):
+def grid(N, origin="0", order="ascending"):
+    """uniform direction grid [degrees]: origin shifts the whole grid, order re-arranges the same
+    set of directions so that the 360->0 wrap sits in the interior of the array."""
     d = np.linspace(0, 360, N, endpoint=False)
-    if origin == "0":
-        return d
     if origin == "half_bin":
-        return d + 180.0 / N
-    if origin == "-180":
-        return d - 180.0
-    if origin == "90":
-        return d + 90.0
-    raise ValueError(origin)
+        d = d + 180.0 / N
+    elif origin == "-180":
+        d = d - 180.0
+    elif origin == "90":
+        d = d + 90.0
+    elif origin != "0":
+        raise ValueError(origin)
+    if order == "ascending":
+        return d
+    if order == "roll_half":  # 180, ..., 350, 0, ..., 170
+        return np.roll(d, N // 2)
+    if order == "roll_1":  # 350, 0, 10, ...   (wrap between elements 0 and 1)
+        return np.roll(d, 1)
+    if order == "roll_-1":  # 10, 20, ..., 350, 0   (wrap between the last two elements)
+        return np.roll(d, -1)
+    if order == "plus180mod360":  # (grid + 180) % 360; for odd N a different set of directions
+        return (d + 180.0) % 360.0
+    if order == "descending":  # supported, not in GRID_ORDERS (see ASSUMPTIONS)
+        return d[::-1].copy()
+    raise ValueError(order)
+
+
+# uniform grids whose wrap lies in the interior of the array (all four variants must cope: the
+# property quantifies over "every uniform direction grid")
+GRID_ORDERS = ["roll_half", "roll_1", "roll_-1", "plus180mod360"]
 
 
 # --------------------------------------------------------------------------------------------
@@ -215,6 +243,15 @@ def call(variant, a1, b1, a2, b2, direction):
     args = [np.array(x, dtype=float) for x in (a1, b1, a2, b2)]
     with quiet():
         return robust(lambda: estimate_directional_distribution(*args, direction.copy(), method, **kw))
+
+
+def call_raw(variant, arrays, direction):
+    """as call(), but the moment arrays are handed over exactly as they are (views, Fortran order)"""
+    from ocean_science_utilities.wavespectra.estimators.estimate import estimate_directional_distribution
+
+    method, kw = VARIANTS[variant]
+    with quiet():
+        return robust(lambda: estimate_directional_distribution(*arrays, direction.copy(), method, **kw))
 
 
 def tb_tail(exc):
@@ -312,7 +349,8 @@ def discrete_moments(D, direction):
 # --------------------------------------------------------------------------------------------
 # units
 # --------------------------------------------------------------------------------------------
-SHAPE_PARTS = ["(nf,)", "(nt,nf)", "(nt,nx,nf)", "(nt,nf)-transposed-view", "rows-alone", "elements-alone"]
+SHAPE_PARTS = ["(nf,)", "(nt,nf)", "(nt,nx,nf)", "(nt,nf)-transposed-view", "(nt,nx,nf)-fortran", "(nt,nx,nf)-strided",
+               "rows-alone", "elements-alone"]
 
 
 def units(tier):
@@ -336,10 +374,14 @@ def units(tier):
         for N in (8, 36):
             us.append({"name": f"origin:{variant}:N{N}", "kind": "origin", "variant": variant, "N": N,
                        "cost": COST[variant] * NCOST[N] * 3645 * 3})
+        for N in (8, 9, 36):
+            us.append({"name": f"order:{variant}:N{N}", "kind": "order", "variant": variant, "N": N,
+                       "cost": COST[variant] * NCOST[N] * 3645 * 3.5})
         for N in ((36,) if tier == "quick" else (8, 36, 180)):
             for part in SHAPE_PARTS:
                 us.append({"name": f"shapes:{variant}:N{N}:{part}", "kind": "shapes", "variant": variant, "N": N,
-                           "part": part, "cost": COST[variant] * NCOST[N] * 3645 * 2 + (15000 if "elements" in part else 500)})
+                           "part": part, "cost": COST[variant] * NCOST[N] * 3645 * (3 if part.startswith("(nt,nx,nf)-") else 2)
+                           + (15000 if "elements" in part else 500)})
         for N in ((8, 36) if tier == "quick" else (8, 36, 180)):
             for layout in ("time", "time_lat", "flat"):
                 us.append({"name": f"object:{variant}:N{N}:{layout}", "kind": "object", "variant": variant, "N": N,
@@ -453,6 +495,34 @@ def run_origin(unit):
     return c.result()
 
 
+def run_order(unit):
+    """uniform grids whose 360->0 wrap lies inside the array (rolled / (grid+180)%360)"""
+    c = Collector()
+    agg = Agg(c)
+    variant, N = unit["variant"], unit["N"]
+    Q = coarse_quads().reshape(-1, 4)
+    nontriv = 0
+    seen = []
+    for order in GRID_ORDERS:
+        direction = grid(N, "0", order)
+        if any(np.array_equal(direction, g) for g in seen):
+            continue  # e.g. (grid+180)%360 == roll_half for even N
+        seen.append(direction)
+        step = np.diff(np.concatenate([direction, direction[:1]])) % 360.0
+        if not (np.allclose(step, 360.0 / N) and np.any(np.diff(direction) < 0)):
+            raise AssertionError("not a uniform grid with an interior wrap")
+        keybase = {"variant": variant, "N": N, "grid_origin": "0", "grid_order": order}
+        D, done = evaluate(variant, Q, direction, agg, keybase)
+        ok, nz = judge(c, agg, variant, Q, D, done, N, keybase)
+        nontriv += int(np.sum(done & nz))
+        c.cat("grid_order_rolled", int(done.sum()))
+        c.case({"v": variant, "N": N, "order": order})
+    c.sample({"variant": variant, "N": N, "grid_order": "roll_half", "direction_grid_first3": grid(N, "0", "roll_half")[:3].tolist()})
+    c.nontriv(n=nontriv)
+    agg.flush()
+    return c.result()
+
+
 def same(a, b):
     """batch member == singleton within 1e-14 of the row maximum; NaN must match NaN."""
     a = np.asarray(a)
@@ -515,9 +585,38 @@ def run_shapes(unit):
             c.cat("progress_bar_path(points>=10)", 1)
     elif part == "(nt,nx,nf)":
         Q4 = Q3.reshape(5, 9, 81, 4)
-        r = guarded("(nt,nx,nf)", lambda: call(variant, Q4[..., 0], Q4[..., 1], Q4[..., 2], Q4[..., 3], direction))
+        arrs = [np.ascontiguousarray(Q4[..., m]) for m in range(4)]
+        r = guarded("(nt,nx,nf)", lambda: call_raw(variant, arrs, direction))
         if r is not None:
             compare("(nt,nx,nf)", r, ref.reshape(5, 9, 81, N), done.reshape(5, 9, 81), Q4)
+            c.cat("memory_layout_C", int(done.sum()))
+    elif part in ("(nt,nx,nf)-fortran", "(nt,nx,nf)-strided"):
+        # memory-layout axis: the same (5,9,81) members stored column-major / as strided views, as
+        # np.asfortranarray, .T views and the .values of transposed or sliced DataArrays deliver them
+        Q4 = Q3.reshape(5, 9, 81, 4)
+        comps = [np.ascontiguousarray(Q4[..., m]) for m in range(4)]
+        layouts = {}
+        if part.endswith("fortran"):
+            layouts["asfortranarray"] = [np.asfortranarray(x) for x in comps]
+            layouts["T-view-of-(nf,nx,nt)"] = [np.ascontiguousarray(x.transpose(2, 1, 0)).transpose(2, 1, 0) for x in comps]
+            want_flags = (False, True)
+        else:
+            layouts["swapaxes-view-of-(nx,nt,nf)"] = [np.ascontiguousarray(x.swapaxes(0, 1)).swapaxes(0, 1) for x in comps]
+            sliced = []
+            for x in comps:
+                big = np.full((5, 9, 162), 0.123)
+                big[..., ::2] = x
+                sliced.append(big[..., ::2])
+            layouts["every-second-element-view"] = sliced
+            want_flags = (False, False)
+        for lname, arrs in layouts.items():
+            for x, x0 in zip(arrs, comps):
+                if (x.flags.c_contiguous, x.flags.f_contiguous) != want_flags or not np.array_equal(x, x0):
+                    raise AssertionError("memory layout not as intended: " + lname)
+            r = guarded("(nt,nx,nf)/" + lname, lambda: call_raw(variant, arrs, direction))
+            if r is not None:
+                compare("(nt,nx,nf)/" + lname, r, ref.reshape(5, 9, 81, N), done.reshape(5, 9, 81), Q4)
+                c.cat("memory_layout_fortran" if part.endswith("fortran") else "memory_layout_strided", int(done.sum()))
     elif part == "(nt,nf)-transposed-view":
         # non-contiguous input, as produced by xarray transposes
         QT = np.ascontiguousarray(Q3.transpose(1, 0, 2))  # (81,45,4)
@@ -533,6 +632,7 @@ def run_shapes(unit):
         r = guarded("(nt,nf)", fn)
         if r is not None:
             compare("(nt,nf)", r, ref3, done3, Q3)
+            c.cat("memory_layout_strided", int(done.sum()))
     elif part == "rows-alone":
         rows = []
         for i in range(45):
@@ -677,6 +777,25 @@ def run_object(unit):
                 agg.add(dict(keybase, check="batch_vs_alone", layout=layout),
                         f"{variant} N={N}: spectrum {idx[0]} frequency {idx[1]} {qstr(Q3[idx])} differs between the {layout} batch and the spectrum alone",
                         quad=qstr(Q3[idx]), max_abs_diff=float(np.nanmax(np.abs(got[idx] - alone[idx]))))
+    if layout == "time_lat":
+        # the same (time, latitude) batch with every variable stored column-major (what .values of a
+        # transposed dataset / a Fortran-ordered netCDF read hands to the estimator)
+        s1f = make_1d(FREQ, np.asfortranarray(Eb), *[np.asfortranarray(Qb[..., m]) for m in range(4)],
+                      depth=np.asfortranarray(depths.reshape(lead)))
+        flags = [getattr(s1f, nm).values.flags for nm in ("a1", "b1", "a2", "b2", "e")]
+        if all(f.f_contiguous and not f.c_contiguous for f in flags):
+            s2f = convert(s1f, "time_lat/fortran")
+            if s2f is not None:
+                vals = check_object(c, agg, keybase, s1f, s2f, N, Eb, Qb, "time_lat/fortran")
+                if vals is not None:
+                    got = vals.reshape(45, NF, N)
+                    eq = same(got, alone)
+                    c.cat("object_fortran_values", int(eq.size))
+                    for idx in zip(*np.nonzero(~eq)):
+                        agg.add(dict(keybase, check="batch_vs_alone", layout="time_lat/fortran"),
+                                f"{variant} N={N}: spectrum {idx[0]} frequency {idx[1]} {qstr(Q3[idx])} differs between the "
+                                f"Fortran-ordered (time, latitude) batch and the spectrum alone",
+                                quad=qstr(Q3[idx]), max_abs_diff=float(np.nanmax(np.abs(got[idx] - alone[idx]))))
     c.case({"v": variant, "N": N, "layout": layout})
     c.sample({"variant": variant, "N": N, "layout": layout, "lead_shape": list(lead), "nf": NF,
               "depths": [str(x) for x in depths[:3]]})
@@ -688,6 +807,6 @@ def run_object(unit):
 
 def run_unit(unit):
     return {
-        "lattice": run_lattice, "vonmises": run_vonmises, "origin": run_origin, "shapes": run_shapes,
+        "lattice": run_lattice, "vonmises": run_vonmises, "origin": run_origin, "order": run_order, "shapes": run_shapes,
         "object": run_object,
     }[unit["kind"]](unit)
